@@ -472,7 +472,9 @@ func runMulti(t *testing.T, n int, gossip bool, batching bool, relay bool, evs [
 			p, err := clus.NewCRDTPeer(ctx, h, clus.NewFaultStore(), gossip, func(c *crdt.Config) {
 				if relay && i != 1 {
 					c.TrustAll = false
-					c.TrustedPeers = []peer.ID{hosts[0].ID(), hosts[2].ID()}
+					// each of the two lists the other one only (a peer need
+					// not list itself to take part)
+					c.TrustedPeers = []peer.ID{hosts[2-i].ID()}
 				}
 				if batching {
 					c.Batching.MaxBatchSize = 2
